@@ -445,7 +445,8 @@ func (sc *Scope) call(x ECall) V {
 				ks := w.sortOf(mt.Key())
 				dn, dso, _, _ := mapHeaps(w, mt)
 				vc.declCard(ks)
-				return V{app("card_"+sortName(ks), sel(sc.heapTerm(dn, dso), v.T)), SInt, nil}
+				d := ite(eq(v.T, "0"), w.zero(arraySort(ks, SBool)), sel(sc.heapTerm(dn, dso), v.T))
+				return V{app("card_"+sortName(ks), d), SInt, nil}
 			}
 		}
 		specFail("len of %s", v.S)
@@ -484,7 +485,7 @@ func (sc *Scope) call(x ECall) V {
 		}
 		ks := w.sortOf(mt.Key())
 		dn, dso, _, _ := mapHeaps(w, mt)
-		return V{sel(sc.heapTerm(dn, dso), m.T), arraySort(ks, SBool), nil}
+		return V{ite(eq(m.T, "0"), w.zero(arraySort(ks, SBool)), sel(sc.heapTerm(dn, dso), m.T)), arraySort(ks, SBool), nil}
 	case "vals":
 		need(1)
 		m := arg(0)
@@ -495,6 +496,57 @@ func (sc *Scope) call(x ECall) V {
 		ks, vs := w.sortOf(mt.Key()), w.sortOf(mt.Elem())
 		_, _, vn, vso := mapHeaps(w, mt)
 		return V{sel(sc.heapTerm(vn, vso), m.T), arraySort(ks, vs), nil}
+	case "fzero":
+		need(0)
+		return V{"flt_zero", SFloat, types.Typ[types.Float64]}
+	case "pointee":
+		need(1)
+		v := arg(0)
+		return V{sel(sc.heapTerm("Pointee", arraySort(SInt, SIface)), app("uInt", app("pay", v.T))), SIface, nil}
+	case "elemType":
+		need(1)
+		return V{app("elemT", arg(0).T), SType, nil}
+	case "isNilPayload":
+		need(1)
+		vc.declT10()
+		return V{app("isNilPayload", arg(0).T), SBool, nil}
+	case "framed":
+		// framed(T): every slice backing array / map of type T that existed at function entry has its entry contents
+		need(1)
+		t := vc.resolveType(x.Args[0].String())
+		alive0 := vc.heapInit("alive", aliveSort)
+		var parts []string
+		frame := func(hn, hs string) {
+			parts = append(parts, fmt.Sprintf("(forall ((r Int)) (! (=> (select %s r) (= (select %s r) (select %s r))) :pattern ((select %s r))))",
+				alive0, sc.heapTerm(hn, hs), sc.old.heapTerm(hn, hs), sc.heapTerm(hn, hs)))
+		}
+		switch u := t.Underlying().(type) {
+		case *types.Slice:
+			hn, hs := elemsHeap(w.sortOf(u.Elem()))
+			frame(hn, hs)
+		case *types.Map:
+			dn, dso, vn, vso := mapHeaps(w, u)
+			frame(dn, dso)
+			frame(vn, vso)
+		default:
+			specFail("framed expects a slice or map type")
+		}
+		return V{and(parts...), SBool, nil}
+	case "upd":
+		need(3)
+		a, i, v := arg(0), arg(1), arg(2)
+		ks, vs := splitArraySort(a.S)
+		i = sc.coerceNil(i, V{S: ks})
+		v = sc.coerceNil(v, V{S: vs})
+		return V{sto(a.T, i.T, v.T), a.S, nil}
+	case "visited":
+		need(1)
+		name := "visited#" + x.Args[0].String()
+		v, ok := sc.ghostLookup(name)
+		if !ok {
+			specFail("no range loop #%s has started on this path", x.Args[0])
+		}
+		return v
 	case "emptyset":
 		need(1)
 		so, _ := vc.ghostSort(x.Args[0].String())
@@ -548,8 +600,9 @@ func (sc *Scope) call(x ECall) V {
 		from := vc.resolveType(x.Args[1].String())
 		to := vc.resolveType(x.Args[2].String())
 		return vc.convValue(sc.st, v, from, to)
-	case "alloc":
-		// alloc(T, k): the object created by the k-th allocation of a T in the function (block order)
+	case "alloc", "made":
+		// alloc(T, k): the object created by the k-th `new T` / composite literal of the function (block order);
+		// made(T, k): the k-th make(T) (map, slice, channel)
 		need(2)
 		t := vc.resolveType(x.Args[0].String())
 		k := 0
@@ -559,15 +612,34 @@ func (sc *Scope) call(x ECall) V {
 		n := 0
 		for _, b := range vc.fn.Blocks {
 			for _, in := range b.Instrs {
-				al, ok := in.(*ssa.Alloc)
-				if !ok {
+				var made types.Type
+				var val ssa.Value
+				switch al := in.(type) {
+				case *ssa.Alloc:
+					if x.Fn != "alloc" {
+						continue
+					}
+					made, val = al.Type().Underlying().(*types.Pointer).Elem(), al
+				case *ssa.MakeMap:
+					made, val = al.Type(), al
+				case *ssa.MakeSlice:
+					made, val = al.Type(), al
+				case *ssa.MakeChan:
+					made, val = al.Type(), al
+				default:
 					continue
 				}
-				if types.Identical(al.Type().Underlying().(*types.Pointer).Elem(), t) {
+				if _, isAlloc := in.(*ssa.Alloc); !isAlloc && x.Fn != "made" {
+					continue
+				}
+				if types.Identical(made, t) {
 					n++
 					if n == k {
 						fr := sc.st.frames[0]
-						if v, ok := fr.env[al].(V); ok {
+						if v, ok := fr.env[val].(V); ok {
+							if v.GT == nil {
+								v.GT = val.Type()
+							}
 							return v
 						}
 						specFail("alloc(%s,%d) has not been executed on this path", x.Args[0], k)
